@@ -115,48 +115,56 @@ def interiorEmpty (parts : List Part) : List Nat :=
   (List.range parts.length).filter fun i =>
     1 ≤ i && i + 1 < parts.length && (match parts[i]? with | some p => p.isEmpty | none => false)
 
-/-- `IPv6Address._ip_int_from_string` -/
-def parseV6Int (s : Text) : Option Nat :=
+/-- `parts_hi` hextets from the front, `parts_skipped = 8 - (hi + lo) ≥ 1` zero hextets, `parts_lo` from the back -/
+def assembleSkip (parts : List Part) (hi lo : Nat) : Option Nat :=
+  if hi + lo ≥ 8 then none
+  else
+    match foldParts (parts.take hi) 0 with
+    | none => none
+    | some a => foldParts (parts.drop (parts.length - lo)) (a * 65536 ^ (8 - (hi + lo)))
+
+/-- the second half of `IPv6Address._ip_int_from_string`: from the list of parts (an IPv4 suffix already
+    replaced by its two hextets) to the integer -/
+def assembleV6 (parts : List Part) : Option Nat :=
+  let len := parts.length
+  if len > 9 then none
+  else
+    let firstEmpty := (parts.head?.map Part.isEmpty).getD false
+    let lastEmpty := (parts.getLast?.map Part.isEmpty).getD false
+    match interiorEmpty parts with
+    | [] =>
+      if len != 8 then none
+      else if firstEmpty then none
+      else if lastEmpty then none
+      else foldParts parts 0
+    | [k] =>
+      let hi0 := k
+      let lo0 := len - k - 1
+      if firstEmpty && hi0 - 1 != 0 then none
+      else if lastEmpty && lo0 - 1 != 0 then none
+      else
+        assembleSkip parts (if firstEmpty then hi0 - 1 else hi0) (if lastEmpty then lo0 - 1 else lo0)
+    | _ => none
+
+/-- the first half: split at `:`, at least 3 parts, an IPv4 suffix becomes two hextets -/
+def v6Parts (s : Text) : Option (List Part) :=
   if s.isEmpty then none
   else
     let raw := splitOn 0x3a s
     if raw.length < 3 then none
     else
       let last := raw.getLast?.getD []
-      let parts? : Option (List Part) :=
-        if last.contains 0x2e then
-          match parseV4 last with
-          | some v => some (raw.dropLast.map Part.txt ++ [Part.num (v / 65536), Part.num (v % 65536)])
-          | none => none
-        else some (raw.map Part.txt)
-      match parts? with
-      | none => none
-      | some parts =>
-        let len := parts.length
-        if len > 9 then none
-        else
-          let firstEmpty := (parts.head?.map Part.isEmpty).getD false
-          let lastEmpty := (parts.getLast?.map Part.isEmpty).getD false
-          match interiorEmpty parts with
-          | [] =>
-            if len != 8 then none
-            else if firstEmpty then none
-            else if lastEmpty then none
-            else foldParts parts 0
-          | [k] =>
-            let hi0 := k
-            let lo0 := len - k - 1
-            if firstEmpty && hi0 - 1 != 0 then none
-            else if lastEmpty && lo0 - 1 != 0 then none
-            else
-              let hi := if firstEmpty then hi0 - 1 else hi0
-              let lo := if lastEmpty then lo0 - 1 else lo0
-              if hi + lo ≥ 8 then none
-              else
-                match foldParts (parts.take hi) 0 with
-                | none => none
-                | some a => foldParts (parts.drop (len - lo)) (a * 65536 ^ (8 - (hi + lo)))
-          | _ => none
+      if last.contains 0x2e then
+        match parseV4 last with
+        | some v => some (raw.dropLast.map Part.txt ++ [Part.num (v / 65536), Part.num (v % 65536)])
+        | none => none
+      else some (raw.map Part.txt)
+
+/-- `IPv6Address._ip_int_from_string` -/
+def parseV6Int (s : Text) : Option Nat :=
+  match v6Parts s with
+  | none => none
+  | some parts => assembleV6 parts
 
 inductive Addr where
   | v4 (n : Nat)
